@@ -181,7 +181,7 @@ def judge_line(prop, cfg, dbg, group, args, resp, st, reqline, mode, endian='lit
         loose = is_loose(e)
         ok_model = matches(e, obs)
         pr = pobs.get(name)
-        if pr is not None:
+        if pr is not None and not isinstance(e, core.NoCalib):
             st['calib'] += 1
             praw, po = pr
             if not matches(e, po):
@@ -333,6 +333,8 @@ def main(argv):
     ap.add_argument('tier', nargs='?', default=os.environ.get('VERIF_TIER', 'quick'))
     ap.add_argument('--replay')
     ap.add_argument('--jobs', type=int, default=int(os.environ.get('VERIF_JOBS', NCPU)))
+    ap.add_argument('--cfg', help='restrict to these configurations (comma separated; debugging aid)')
+    ap.add_argument('--ops', help='only report violations of these ops (comma separated; debugging aid)')
     ap.add_argument('--scale', type=float, default=float(os.environ.get('VERIF_SCALE', '1')))
     a = ap.parse_args(argv)
     pid = a.prop.upper()
@@ -367,6 +369,8 @@ def main(argv):
             write_evidence(pid, tier, seed, st, time.time() - t0, prop, ['driver build failed'], {})
             return 2
     cfgs = prop.configs(tier) if not tasks else []
+    if a.cfg:
+        cfgs = [c for c in cfgs if c in a.cfg.split(',')]
     for ci, cname in enumerate(cfgs):
         cfg = core.Cfg(cname)
         n = max(1, int(prop.budget(cfg, tier) * a.scale))
@@ -389,6 +393,8 @@ def main(argv):
             st['inconclusive'].append('auxiliary build failed: %s' % str(e)[:800])
         except Exception:
             st['inconclusive'].append('auxiliary pass crashed: ' + traceback.format_exc()[-1500:])
+    if a.ops:
+        st['viol_list'] = [v for v in st['viol_list'] if v['op'] in a.ops.split(',')]
     return finish(pid, prop, tier, seed, st, t0, extra_cov)
 
 
